@@ -24,7 +24,7 @@ open(os.path.join(root, 'simseam', 'simseam.go'), 'w').write('''// Package simse
 package simseam
 
 // Hook is called at the instrumented sites. site names: put, delete, createBucket, createBucketIfNotExists,
-// deleteBucket, cursorDelete (may return an error that the bbolt call then returns), rw.acquired, tx.committed, rw.released,
+// deleteBucket, cursorDelete (may return an error that the bbolt call then returns), rw.acquired, tx.commit.begin, tx.committed, rw.released,
 // batch.solo (key = db path; return value ignored).
 var Hook func(site string, key []byte) error
 
@@ -47,6 +47,8 @@ patch('db.go', [
      "\tif err == trySolo {\n\t\t_ = simseam.Call(\"batch.solo\", []byte(db.path))\n\t\terr = db.Update(fn)\n"),
 ])
 patch('tx.go', [
+    ("\t} else if !tx.writable {\n\t\treturn berrors.ErrTxNotWritable\n\t}\n\n\t// TODO(benbjohnson): Use vectorized I/O to write out dirty pages.\n",
+     "\t} else if !tx.writable {\n\t\treturn berrors.ErrTxNotWritable\n\t}\n\t_ = simseam.Call(\"tx.commit.begin\", []byte(tx.db.path))\n\n\t// TODO(benbjohnson): Use vectorized I/O to write out dirty pages.\n"),
     ("\t// Finalize the transaction.\n\ttx.close()\n",
      "\t// Finalize the transaction.\n\tif tx.writable {\n\t\t_ = simseam.Call(\"tx.committed\", []byte(tx.db.path))\n\t}\n\ttx.close()\n"),
     ("\t\ttx.db.rwtx = nil\n\t\ttx.db.rwlock.Unlock()\n",
